@@ -1,6 +1,8 @@
-"""Tables for C17: the expressions of the CURRENT source that the Lean model transcribes (Python `ast`, no logic):
-position functions of the clamps, default bounds and initial guesses, what `update_params` / `LinkBase.update` do
-statement by statement, what each link's `transform` returns, and `LineCurve`'s function.
+"""Tables for C17: the methods of the CURRENT source that the Lean model transcribes (Python `ast`, no logic), statement by
+statement: constructors, position functions, default bounds and initial guesses of the clamps, `get_params` /
+`update_params`, `LinkBase.update`, every link's constructor and `transform`, and `LineCurve`'s function. Each method is
+normalised so that only statement-level edits show: docstrings, comments, blank lines, type annotations, print / warn /
+logging statements are dropped and parameters and locals are renamed `v0, v1, …` in order of first appearance.
 `Props/C17.lean` proves (`rfl`) that the table the model declares next to its definitions is this one."""
 
 from __future__ import annotations
@@ -8,6 +10,9 @@ from __future__ import annotations
 import ast
 import inspect
 from typing import List, Optional
+
+
+import copy
 
 
 def _cls(mod, name: str) -> ast.ClassDef:
@@ -24,20 +29,143 @@ def _fn(node, name: str) -> Optional[ast.FunctionDef]:
     return None
 
 
-def _stmts(fn: ast.FunctionDef) -> List[str]:
-    return [ast.unparse(s) for s in fn.body if not (isinstance(s, ast.Expr) and isinstance(s.value, ast.Constant))]
+# ------------------------------------------------------------------ tolerant normalisation of one method
+def _is_doc_or_report(s: ast.stmt) -> bool:
+    if isinstance(s, ast.Expr) and isinstance(s.value, ast.Constant) and isinstance(s.value.value, str):
+        return True
+    if isinstance(s, ast.Expr) and isinstance(s.value, ast.Call):
+        fn = ast.unparse(s.value.func)
+        return fn in ("print", "warnings.warn") or fn.startswith("logging.") or fn.startswith("logger.")
+    return False
 
 
-def _returns(fn: ast.FunctionDef) -> List[str]:
-    return [ast.unparse(n.value) for n in ast.walk(fn) if isinstance(n, ast.Return) and n.value is not None]
+class _Strip(ast.NodeTransformer):
+    """docstrings, print / warn / logging statements and type annotations do not count"""
+
+    def _body(self, body):
+        out = [self.visit(s) for s in body if not _is_doc_or_report(s)]
+        out = [s for s in out if s is not None]
+        return out or [ast.Pass()]
+
+    def visit_FunctionDef(self, node):
+        node.returns = None
+        for a in node.args.args + node.args.kwonlyargs + node.args.posonlyargs:
+            a.annotation = None
+        for extra in (node.args.vararg, node.args.kwarg):
+            if extra is not None:
+                extra.annotation = None
+        node.body = self._body(node.body)
+        node.decorator_list = []
+        return node
+
+    def visit_AnnAssign(self, node):
+        if node.value is None:
+            return None
+        return ast.copy_location(ast.Assign(targets=[node.target], value=self.visit(node.value)), node)
+
+    def generic_visit(self, node):
+        for field in ("body", "orelse", "finalbody"):
+            if isinstance(getattr(node, field, None), list) and not isinstance(node, (ast.Lambda, ast.IfExp)):
+                setattr(node, field, self._body(getattr(node, field)) if field == "body" else [self.visit(s) for s in getattr(node, field) if not _is_doc_or_report(s)])
+        return super().generic_visit(node)
 
 
-def _lambdas(fn: ast.FunctionDef) -> List[str]:
-    return [ast.unparse(n.body) for n in ast.walk(fn) if isinstance(n, ast.Lambda)]
+def _local_names(fn: ast.FunctionDef) -> List[str]:
+    """parameters (but `self`/`cls`) and every name bound inside the method, in order of first appearance in the text"""
+    order: List[str] = []
+
+    def add(n):
+        if n not in ("self", "cls") and n not in order:
+            order.append(n)
+
+    def visit(node):
+        if isinstance(node, (ast.FunctionDef, ast.Lambda)):
+            if isinstance(node, ast.FunctionDef) and node is not fn:
+                add(node.name)
+            a = node.args
+            for x in a.posonlyargs + a.args + a.kwonlyargs:
+                add(x.arg)
+            for x in (a.vararg, a.kwarg):
+                if x is not None:
+                    add(x.arg)
+        if isinstance(node, ast.Name) and isinstance(node.ctx, (ast.Store, ast.Del)):
+            add(node.id)
+        if isinstance(node, ast.ExceptHandler) and node.name:
+            add(node.name)
+        for child in ast.iter_child_nodes(node):
+            visit(child)
+
+    visit(fn)
+    return order
 
 
-def _assign(fn: ast.FunctionDef, target: str) -> List[str]:
-    return [ast.unparse(n.value) for n in ast.walk(fn) if isinstance(n, ast.Assign) and ast.unparse(n.targets[0]) == target]
+class _RenameLocals(ast.NodeTransformer):
+    def __init__(self, mapping):
+        self.m = mapping
+
+    def visit_Name(self, node):
+        if node.id in self.m:
+            node.id = self.m[node.id]
+        return node
+
+    def visit_arg(self, node):
+        if node.arg in self.m:
+            node.arg = self.m[node.arg]
+        return node
+
+    def visit_FunctionDef(self, node):
+        if node.name in self.m:
+            node.name = self.m[node.name]
+        return self.generic_visit(node)
+
+    def visit_ExceptHandler(self, node):
+        if node.name in self.m:
+            node.name = self.m[node.name]
+        return self.generic_visit(node)
+
+    def visit_keyword(self, node):
+        return self.generic_visit(node)  # keyword names of calls are part of the callee's interface: kept
+
+
+class Method:
+    """a method of the current source, stripped and with its locals renamed v0, v1, … (after the pieces of interest
+    have been located by their original names)"""
+
+    def __init__(self, mod, cls: str, name: str):
+        self.fn = _Strip().visit(copy.deepcopy(_fn(_cls(mod, cls), name)))
+        ast.fix_missing_locations(self.fn)
+        self.picked: List[ast.AST] = []
+
+    # -- locating (original names)
+    def nested(self, name: str) -> "Method":
+        m = object.__new__(Method)
+        m.fn, m.picked = _fn(self.fn, name), self.picked
+        if m.fn is None:
+            raise ValueError(f"no nested function {name}")
+        return m
+
+    def returns(self) -> List[ast.AST]:
+        own = [n for n in ast.walk(self.fn) if isinstance(n, ast.Return) and n.value is not None]
+        return [n.value for n in own]
+
+    def lambdas(self) -> List[ast.AST]:
+        return [n.body for n in ast.walk(self.fn) if isinstance(n, ast.Lambda)]
+
+    def assigned(self, target: str) -> List[ast.AST]:
+        return [n.value for n in ast.walk(self.fn) if isinstance(n, ast.Assign) and ast.unparse(n.targets[0]) == target]
+
+    def calls(self, func: str) -> List[ast.AST]:
+        return [n for n in ast.walk(self.fn) if isinstance(n, ast.Call) and ast.unparse(n.func) == func]
+
+    def statements(self) -> List[ast.AST]:
+        return list(self.fn.body)
+
+
+def _render(root: Method, nodes: List[ast.AST]) -> List[str]:
+    """normalise the whole (outermost) method, then print the located pieces"""
+    names = _local_names(root.fn)
+    _RenameLocals({n: f"v{i}" for i, n in enumerate(names)}).visit(root.fn)
+    return [" ".join(ast.unparse(n).split()) for n in nodes]
 
 
 def emit_all(emit):
@@ -45,47 +173,37 @@ def emit_all(emit):
     from classy_blocks.optimize import links
     from classy_blocks.optimize.clamps import clamp, curve, surface
 
+    guard = getattr(emit, "guard", lambda fn, *a, **k: fn(*a, **k))
     rows = []
 
-    def row(key, values):
-        rows.append((key, list(values)))
+    def row(key, mod, cls, meth, pick):
+        """one pinned piece: `pick(method)` locates nodes by the names the source uses now; if the piece cannot be
+        located any more the row says so (and the pin trips) without stopping the other rows"""
+        def one():
+            m = Method(mod, cls, meth)
+            nodes = pick(m)
+            rows.append((key, _render(m, nodes)))
+        before = len(rows)
+        guard(one)
+        if len(rows) == before:
+            rows.append((key, ["?not-found"]))
 
-    line = _cls(curve, "LineClamp")
-    row("LineClamp.function", _returns(_fn(_fn(line, "__init__"), "function")))
-    row("LineClamp.bounds", _assign(_fn(line, "__init__"), "bounds"))
-    row("LineClamp.initial_guess", _returns(_fn(line, "initial_guess")))
-    rad = _cls(curve, "RadialClamp")
-    row("RadialClamp.function", _lambdas(_fn(rad, "__init__")))
-    row("RadialClamp.radius", _assign(_fn(rad, "__init__"), "radius"))
-    row("RadialClamp.initial_guess", _returns(_fn(rad, "initial_guess")))
-    cc = _cls(curve, "CurveClamp")
-    row("CurveClamp.function", _lambdas(_fn(cc, "__init__")))
-    row("CurveClamp.initial", _assign(_fn(cc, "__init__"), "initial"))
-    row("CurveClamp.super", [ast.unparse(n) for n in ast.walk(_fn(cc, "__init__")) if isinstance(n, ast.Call) and ast.unparse(n.func) == "super().__init__"])
-    pl = _cls(surface, "PlaneClamp")
-    row("PlaneClamp.function", _returns(_fn(_fn(pl, "__init__"), "position_function")))
-    row("PlaneClamp.u_dir", _assign(_fn(pl, "__init__"), "u_dir"))
-    row("PlaneClamp.v_dir", _assign(_fn(pl, "__init__"), "v_dir"))
-    row("PlaneClamp.initial_guess", _returns(_fn(pl, "initial_guess")))
-    row("ParametricSurfaceClamp.initial_guess", _returns(_fn(_cls(surface, "ParametricSurfaceClamp"), "initial_guess")))
-    base = _cls(clamp, "ClampBase")
-    row("ClampBase.update_params", _stmts(_fn(base, "update_params")))
-    row("ClampBase.get_params.distance", _returns(_fn(_fn(base, "get_params"), "distance_from_vertex")))
-    row("LineCurve.function", _returns(_fn(_cls(analytic, "LineCurve"), "_line_function")))
-    row("LineCurve.vector", _returns(_fn(_cls(analytic, "LineCurve"), "vector")))
-    lb = _cls(links, "LinkBase")
-    row("LinkBase.update", _stmts(_fn(lb, "update")))
-    tl = _cls(links, "TranslationLink")
-    row("TranslationLink.vector", _assign(_fn(tl, "__init__"), "self.vector"))
-    row("TranslationLink.transform", _returns(_fn(tl, "transform")))
-    rl = _cls(links, "RotationLink")
-    row("RotationLink.transform", _returns(_fn(rl, "transform")))
-    row("RotationLink.orig_follower_pos", _assign(_fn(rl, "__init__"), "self.orig_follower_pos"))
-    row("RotationLink.prev_radius", _assign(_fn(rl, "transform"), "prev_radius"))
-    row("RotationLink._get_radius", _returns(_fn(rl, "_get_radius")))
-    row("RotationLink._get_height", _returns(_fn(rl, "_get_height")))
-    sl = _cls(links, "SymmetryLink")
-    row("SymmetryLink._get_follower", _returns(_fn(sl, "_get_follower")))
-    row("SymmetryLink.transform", _returns(_fn(sl, "transform")))
+    whole = lambda m: m.statements()  # noqa: E731  (every statement of the method, name-independent)
+    for mod, cls, meths in (
+        (clamp, "ClampBase", ("__init__", "get_params", "update_params")),
+        (curve, "CurveClamp", ("__init__", "initial_guess")),
+        (curve, "LineClamp", ("__init__", "initial_guess")),
+        (curve, "RadialClamp", ("__init__", "initial_guess")),
+        (surface, "PlaneClamp", ("__init__", "initial_guess")),
+        (surface, "ParametricSurfaceClamp", ("initial_guess",)),
+        (analytic, "LineCurve", ("__init__", "_line_function", "vector")),
+        (links, "LinkBase", ("__init__", "update")),
+        (links, "TranslationLink", ("__init__", "transform")),
+        (links, "RotationLink", ("__init__", "transform", "_get_height", "_get_radius")),
+        (links, "SymmetryLink", ("__init__", "_get_follower", "transform")),
+    ):
+        for meth in meths:
+            row(f"{cls}.{meth}", mod, cls, meth, whole)
     emit("c17Source", "List (String × List String)", rows,
-         "the expressions / statements of optimize/clamps, optimize/links and LineCurve that the model transcribes")
+         "the expressions / statements of optimize/clamps, optimize/links and LineCurve that the model transcribes "
+         "(docstrings, comments, annotations, print/warn dropped; parameters and locals renamed v0, v1, … per method)")
